@@ -81,6 +81,7 @@ func newEngine(prog *ssa.Program, pkgs map[string]*ssa.Package, spec HarnessSpec
 	keepGeometry = spec.KeepGeom
 	e.panicObls = spec.PanicObls
 	e.lazyBranch = !spec.Eager && os.Getenv("GOSYM_EAGER") == ""
+	e.joinMerge = os.Getenv("GOSYM_NOJOIN") == ""
 	e.trackAllocs = spec.Allocs
 	e.params = spec.Params
 	e.registerIntrinsics()
